@@ -384,36 +384,89 @@ theorem parameters_eq {α : Type} (d : Dict α) (hd : WellKeyed d) : parameters 
 
 /-! ### parameter-update histories (`set_aberrations`) -/
 
+/-- the (symbol, stored value) addressed by one item of a history: `defocus` writes `neg v` under `C10`, any other name writes `v`
+under the name it resolves to (a symbol, or — for a name that is neither alias nor symbol — itself, which is then an ordinary
+attribute and no coefficient) -/
+def target {α : Type} (neg : α → α) (kv : String × α) : String × α :=
+  if kv.1 == "defocus" then ("C10", neg kv.2) else (resolve kv.1, kv.2)
+
+/-- the last value a history addresses to symbol `s` (none if it never does) -/
+def lastWrite {α : Type} (neg : α → α) (items : List (String × α)) (s : String) : Option α :=
+  (items.reverse.map (target neg)).lookup s
+
+theorem setAttrTotal_eq {α : Type} (neg : α → α) (d : Dict α) (kv : String × α) :
+    setAttrTotal neg d kv.1 kv.2
+      = if (target neg kv).1 ∈ symbolKeys then dictSet d (target neg kv).1 (target neg kv).2 else d := by
+  unfold setAttrTotal setAttr target
+  by_cases hd : (kv.1 == "defocus") = true
+  · have : "C10" ∈ symbolKeys := by decide
+    simp [hd, this]
+  · by_cases hc : resolve kv.1 ∈ symbolKeys
+    · simp [hd, hc]
+    · simp [hd, hc]
+
 /-- `set_aberrations` keeps the dict well keyed, whatever the history of updates. -/
 theorem setAberrations_wellKeyed {α : Type} (neg : α → α) (items : List (String × α)) :
-    ∀ (d d' : Dict α), WellKeyed d → setAberrations neg d items = .ok d' → WellKeyed d' := by
+    ∀ d : Dict α, WellKeyed d → WellKeyed (setAberrations neg d items) := by
   induction items with
-  | nil => intro d d' hd h; simp [setAberrations, pure, Except.pure] at h; rw [← h]; exact hd
+  | nil => intro d hd; exact hd
   | cons kv rest ih =>
-    intro d d' hd h
-    simp only [setAberrations, List.foldlM_cons] at h
-    cases h1 : setAttr neg d kv.1 kv.2 with
-    | error e => simp [h1, bind, Except.bind] at h
-    | ok d1 =>
-      simp only [h1, bind, Except.bind] at h
-      exact ih d1 d' (setAttr_wellKeyed neg d d1 kv.1 kv.2 hd h1) h
+    intro d hd
+    simp only [setAberrations, List.foldl_cons]
+    apply ih
+    rw [setAttrTotal_eq]
+    split
+    · rename_i hm
+      unfold WellKeyed at *
+      rw [keys_dictSet_of_mem _ _ _ (by rw [hd]; exact hm), hd]
+    · exact hd
 
-/-- Updating an existing object: the last value written for a coefficient — zero included, whatever was stored before — is the
+/-- Updating an existing object: the value written for a coefficient — zero included, whatever was stored before — is the
 value read back, through the alias and through the symbol. -/
 theorem setAberrations_overwrites {α : Type} (neg : α → α) (z : α) (d : Dict α) (v : α) :
     ∀ kv ∈ polarAliases, kv.1 ≠ "defocus" →
-      setAberrations neg d [(kv.1, v)] = .ok (dictSet d kv.2 v) ∧ setAberrations neg d [(kv.2, v)] = .ok (dictSet d kv.2 v)
+      setAberrations neg d [(kv.1, v)] = dictSet d kv.2 v ∧ setAberrations neg d [(kv.2, v)] = dictSet d kv.2 v
         ∧ getAttr neg z (dictSet d kv.2 v) kv.2 = .ok v ∧ getAttr neg z (dictSet d kv.2 v) kv.1 = .ok v := by
   intro kv hkv hne
   obtain ⟨h1, h2, h3, h4⟩ := aliases_address_same_coefficient neg z d v kv hkv hne
   refine ⟨?_, ?_, h4, h3⟩
-  · simp [setAberrations, h1, bind, Except.bind, pure, Except.pure]
-  · simp [setAberrations, h2, bind, Except.bind, pure, Except.pure]
+  · simp [setAberrations, setAttrTotal, h1]
+  · simp [setAberrations, setAttrTotal, h2]
 
 /-- a later update of the same coefficient replaces an earlier one (non-zero then zero, or any other pair) -/
 theorem dictSet_dictSet {α : Type} (d : Dict α) (k : String) (v w : α) (z : α) :
     ((dictSet (dictSet d k v) k w).lookup k).getD z = w := by
   rw [lookup_dictSet_self]; rfl
+
+/-- Whatever the history of updates (interleaved keys, aliases, `defocus`, zeros, names that are no aberrations): afterwards every
+symbol holds the last value the history addressed to it, or its previous value if the history never addressed it. -/
+theorem setAberrations_last_write_wins {α : Type} (neg : α → α) (z : α) (items : List (String × α)) :
+    ∀ (d : Dict α) (s : String), s ∈ symbolKeys →
+      ((setAberrations neg d items).lookup s).getD z = (lastWrite neg items s).getD ((d.lookup s).getD z) := by
+  induction items with
+  | nil => intro d s _; simp [setAberrations, lastWrite]
+  | cons kv rest ih =>
+    intro d s hs
+    simp only [setAberrations, List.foldl_cons]
+    have := ih (setAttrTotal neg d kv.1 kv.2) s hs
+    simp only [setAberrations] at this
+    rw [this]
+    unfold lastWrite
+    rw [List.reverse_cons, List.map_append, List.lookup_append]
+    cases hl : List.lookup s (List.map (target neg) rest.reverse) with
+    | some v => simp
+    | none =>
+      simp only [Option.none_or, List.map_cons, List.map_nil, Option.getD_none]
+      rw [setAttrTotal_eq]
+      by_cases hst : s = (target neg kv).1
+      · have hm : (target neg kv).1 ∈ symbolKeys := hst ▸ hs
+        simp only [hm, if_true]
+        rw [hst, lookup_dictSet_self]
+        simp [List.lookup]
+      · have hb : (s == (target neg kv).1) = false := beq_eq_false_iff_ne.mpr hst
+        split
+        · rw [lookup_dictSet_other _ _ _ _ hst]; simp [List.lookup, hb]
+        · simp [List.lookup, hb]
 
 /-- a record built from a name-indexed function returns, under each field name, that function's value -/
 theorem coeff_ofList {α : Type} (z : α) (g : String → α) :
